@@ -8,6 +8,7 @@ mod c04;
 mod c10;
 mod c14;
 mod c08;
+mod c13;
 mod c17;
 mod c18;
 mod c20;
@@ -30,6 +31,7 @@ fn main() {
         "c14" => c14::main(&args),
         "c08" => c08::main(&args, false),
         "c09" => c08::main(&args, true),
+        "c13" => c13::main(&args),
         "c17" => c17::main(&args),
         "c02" => c02::main(&args),
         "c18" => c18::main(&args),
